@@ -4,9 +4,10 @@ package main
 
 import (
 	"fmt"
+	"go/types"
 	"io"
 	"os"
-	"go/types"
+	"regexp"
 	"runtime/debug"
 	"sort"
 	"strings"
@@ -41,6 +42,7 @@ type World struct {
 	modulePkgs map[*ssa.Package]bool
 	opaque     map[string]bool // package paths never interpreted
 	errStringT *types.Pointer
+	regexps    sync.Map
 
 	mu      sync.Mutex
 	cond    *sync.Cond
@@ -219,7 +221,7 @@ func (w *World) newExec() (*Exec, error) {
 	ex := &Exec{
 		w: w, prog: w.prog, st: NewStore(), sol: sol,
 		globals: map[*ssa.Global]*Loc{}, inited: map[*ssa.Package]bool{},
-		funcs: map[*ssa.Function]int{}, intr: map[*ssa.Function]intrinsicFn{},
+		funcs: map[*ssa.Function]int{}, intr: map[*ssa.Function]intrinsicFn{}, regexps: map[*Loc]*regexp.Regexp{},
 	}
 	ex.stats.PathKinds = map[string]int{}
 	ex.resetPath(nil)
